@@ -112,18 +112,41 @@ Definition rExecuted : N := 0.
 Definition rCanceled : N := 1.
 Definition rQueued : N := 2.
 
+(* Remove's early return: queue empty, a transition in progress, state not
+   active right now *)
+Definition rem_early (t : tgt) (m : mut) : bool :=
+  mkind_eqb (m_kind m) MRem && is_nil (t_queue t) && t_busy t
+  && negb (act (t_ticks t) (m_st m)).
+
+(* queueMutation's duplicate skip (not for Multi states, not with args) *)
+Definition dup_skip (c : pcfg) (t : tgt) (m : mut) : bool :=
+  negb (is_multi (p_multiT c) (m_st m)) && negb (m_args m) && is_dup (t_queue t) m.
+
 (* Machine.EvAdd / Machine.EvRemove reaching the target *)
 Definition deliver (c : pcfg) (t : tgt) (m : mut) : tgt * N :=
-  if mkind_eqb (m_kind m) MRem && is_nil (t_queue t) && t_busy t
-     && negb (act (t_ticks t) (m_st m))
+  if rem_early t m
   then (t, rExecuted)   (* Remove: "none of the states is currently active" *)
-  else if negb (is_multi (p_multiT c) (m_st m)) && negb (m_args m)
-          && is_dup (t_queue t) m
+  else if dup_skip c t m
   then (t, rExecuted)   (* queueMutation: duplicate, not queued *)
   else if t_busy t
   then ({| t_ticks := t_ticks t; t_queue := t_queue t ++ [m]; t_busy := true;
            t_pend := t_pend t; t_ntx := t_ntx t; t_nparks := t_nparks t |}, rQueued)
   else (drain c (t_ticks t) (t_queue t ++ [m]) (t_ntx t) (t_nparks t), rExecuted).
+
+(* classification only: the early return drops a Remove although the held
+   transition is about to activate that very state; the duplicate skip drops
+   a mutation although the opposite mutation is queued behind its twin *)
+Definition lossy_early (t : tgt) (m : mut) : bool :=
+  rem_early t m &&
+  match t_pend t with
+  | Some p => mkind_eqb (m_kind p) MAdd && Nat.eqb (m_st p) (m_st m)
+  | None => false
+  end.
+
+Definition lossy_dup (c : pcfg) (t : tgt) (m : mut) : bool :=
+  negb (rem_early t m) && dup_skip c t m &&
+  existsb (fun x => Nat.eqb (m_st x) (m_st m) && negb (mkind_eqb (m_kind x) (m_kind m)))
+          (t_queue t).
 
 (* the held transition goes on: its effect is applied, the drain continues *)
 Definition release (c : pcfg) (t : tgt) : tgt :=
@@ -177,7 +200,8 @@ Record cfg := {
   c_srclog : list N;          (* per SSrc: 0 done, 3 done only after SRel, 9 not issued (source stuck) *)
   c_dellog : list (N * N);    (* per call that reached the target: (mut_code, result class) *)
   c_reord : bool;             (* a call overtook an older call for the same state *)
-  c_busydel : bool            (* a call (or a flat skip test) met a busy target *)
+  c_busydel : bool;           (* a call (or a flat skip test) met a busy target *)
+  c_lossy : bool * bool       (* a call was dropped by (lossy_early, lossy_dup) *)
 }.
 
 Definition init_tgt (n : nat) : tgt :=
@@ -187,7 +211,7 @@ Definition init_tgt (n : nat) : tgt :=
 Definition init (c : pcfg) : cfg :=
   {| c_src := repeat 0%N (p_n c); c_tgt := init_tgt (p_n c); c_bag := [];
      c_blocked := false; c_srclog := []; c_dellog := []; c_reord := false;
-     c_busydel := false |}.
+     c_busydel := false; c_lossy := (false, false) |}.
 
 Fixpoint remove_nth {A} (i : nat) (l : list A) : list A :=
   match l, i with
@@ -202,7 +226,7 @@ Definition older_same (bag : list mut) (i : nat) (m : mut) : bool :=
 Definition set_tgt (s : cfg) (t : tgt) : cfg :=
   {| c_src := c_src s; c_tgt := t; c_bag := c_bag s; c_blocked := c_blocked s;
      c_srclog := c_srclog s; c_dellog := c_dellog s; c_reord := c_reord s;
-     c_busydel := c_busydel s |}.
+     c_busydel := c_busydel s; c_lossy := c_lossy s |}.
 
 Definition exec_step (c : pcfg) (s : cfg) (st : step) : cfg :=
   match st with
@@ -210,14 +234,14 @@ Definition exec_step (c : pcfg) (s : cfg) (st : step) : cfg :=
     if c_blocked s
     then {| c_src := c_src s; c_tgt := c_tgt s; c_bag := c_bag s; c_blocked := true;
             c_srclog := c_srclog s ++ [9%N]; c_dellog := c_dellog s;
-            c_reord := c_reord s; c_busydel := c_busydel s |}
+            c_reord := c_reord s; c_busydel := c_busydel s; c_lossy := c_lossy s |}
     else
       let '(src', ev) := src_op c (c_src s) k i in
       match ev with
       | None =>
         {| c_src := src'; c_tgt := c_tgt s; c_bag := c_bag s; c_blocked := false;
            c_srclog := c_srclog s ++ [0%N]; c_dellog := c_dellog s;
-           c_reord := c_reord s; c_busydel := c_busydel s |}
+           c_reord := c_reord s; c_busydel := c_busydel s; c_lossy := c_lossy s |}
       | Some ek =>
         if p_flat c then
           (* flat: skip on the target's current state, else a synchronous,
@@ -230,7 +254,7 @@ Definition exec_step (c : pcfg) (s : cfg) (st : step) : cfg :=
           if skip
           then {| c_src := src'; c_tgt := t; c_bag := c_bag s; c_blocked := false;
                   c_srclog := c_srclog s ++ [0%N]; c_dellog := c_dellog s;
-                  c_reord := c_reord s; c_busydel := c_busydel s || t_busy t |}
+                  c_reord := c_reord s; c_busydel := c_busydel s || t_busy t; c_lossy := c_lossy s |}
           else
             let m := {| m_kind := ek; m_st := i; m_args := false |} in
             let '(t', r) := deliver c t m in
@@ -238,12 +262,12 @@ Definition exec_step (c : pcfg) (s : cfg) (st : step) : cfg :=
             {| c_src := src'; c_tgt := t'; c_bag := c_bag s; c_blocked := stuck;
                c_srclog := c_srclog s ++ [if stuck then 3%N else 0%N];
                c_dellog := c_dellog s ++ [(mut_code m, r)];
-               c_reord := c_reord s; c_busydel := c_busydel s || t_busy t |}
+               c_reord := c_reord s; c_busydel := c_busydel s || t_busy t; c_lossy := c_lossy s |}
         else
           {| c_src := src'; c_tgt := c_tgt s;
              c_bag := c_bag s ++ [{| m_kind := ek; m_st := i; m_args := args |}];
              c_blocked := false; c_srclog := c_srclog s ++ [0%N];
-             c_dellog := c_dellog s; c_reord := c_reord s; c_busydel := c_busydel s |}
+             c_dellog := c_dellog s; c_reord := c_reord s; c_busydel := c_busydel s; c_lossy := c_lossy s |}
       end
   | SDel i =>
     match nth_error (c_bag s) i with
@@ -254,14 +278,16 @@ Definition exec_step (c : pcfg) (s : cfg) (st : step) : cfg :=
          c_blocked := c_blocked s; c_srclog := c_srclog s;
          c_dellog := c_dellog s ++ [(mut_code m, r)];
          c_reord := c_reord s || older_same (c_bag s) i m;
-         c_busydel := c_busydel s || t_busy (c_tgt s) |}
+         c_busydel := c_busydel s || t_busy (c_tgt s);
+         c_lossy := (fst (c_lossy s) || lossy_early (c_tgt s) m,
+                     snd (c_lossy s) || lossy_dup c (c_tgt s) m) |}
     end
   | SRel =>
     if t_busy (c_tgt s)
     then let t' := release c (c_tgt s) in
          {| c_src := c_src s; c_tgt := t'; c_bag := c_bag s;
             c_blocked := c_blocked s && t_busy t'; c_srclog := c_srclog s;
-            c_dellog := c_dellog s; c_reord := c_reord s; c_busydel := c_busydel s |}
+            c_dellog := c_dellog s; c_reord := c_reord s; c_busydel := c_busydel s; c_lossy := c_lossy s |}
     else s
   | SHold =>
     if t_busy (c_tgt s) then s else set_tgt s (hold (c_tgt s))
